@@ -122,6 +122,14 @@ func (f *failWriter) Write(p []byte) (int, error) {
 	return 0, errDisk
 }
 
+// failByteWriter: the same sink, also usable byte by byte (io.ByteWriter).
+type failByteWriter struct{ *failWriter }
+
+func (f *failByteWriter) WriteByte(c byte) error {
+	_, err := f.failWriter.Write([]byte{c})
+	return err
+}
+
 // ---------------------------------------------------------------------------
 // node snapshots on the simulated disk
 
